@@ -31,7 +31,8 @@ entry(
     "Hypothesis property-based testing against an independent rotation/stretch oracle + metamorphic pipeline relations",
     "Generated search (dims 1-4, angle/ratio vectors incl. padding forms, point sets, all model classes in SRF / Krige / "
     "CondSRF / vector-field pipelines) against explicit rotation matrices written from the documented convention and "
-    "against the isotropic model evaluated at independently transformed positions; one-datum kriging extracts the covariance "
+    "against the isotropic model evaluated at independently transformed positions (kriging objects also reached by re-orienting the model in place + "
+    "documented refresh); one-datum kriging extracts the covariance "
     "a pipeline really uses. Evidence of absence of violations on the explored cases only.",
     "Trusted: numpy/scipy linear algebra, the documented convention R=Rx(roll)Ry(pitch)Rz(yaw) as pinned by tests/test_srf.py.",
     "DESIGN.md section 2, C12",
@@ -43,7 +44,8 @@ entry(
     "Generated operation sequences (all setters incl. dim, integral_scale, set_arg_bounds, hankel_kw; scalar/list, in/on/out of bounds; "
     "plain/temporal/lat-lon/lat-lon+temporal; 17 classes) are executed on the real model and on a reference model of the documented "
     "semantics; every public attribute is compared after each step, rejected assignments must leave the model untouched, and the final "
-    "model must equal a directly constructed one (==, variogram, spectral density). Exploration of bounded histories, not a proof.",
+    "model must equal a directly constructed one (==, variogram, spectral density); constructor keywords must give the model the same values assigned by "
+    "setters give, with the requested values as final values. Exploration of bounded histories, not a proof.",
     "Trusted: the reference model encodes the documented rules (docstrings of CovModel, set_len_anis, set_anis, set_angles, "
     "set_model_angles); scipy quad as integral-scale oracle where its own error estimate is small.",
     "DESIGN.md section 2, C14",
@@ -54,7 +56,7 @@ entry(
     "Hypothesis property-based testing with bitwise before/after snapshots over a registry of public entry points and generated store/transform histories",
     "Every registered public entry point (vario_estimate in 5 modes, vario_estimate_axis, standard_bins, Krige ctor/call/set_condition, "
     "SRF, CondSRF, Field.__call__, fit_variogram, 6 normalizers x 7 methods, apply/remove mean-norm-trend, 11 array transforms, 3 generators, "
-    "geometry helpers) is called with aliasing-prone arrays (float64, C / Fortran / read-only, already of the internal shape) under generated "
+    "geometry helpers, CovModel constructor / setters with parameter arrays) is called with aliasing-prone arrays (float64, C / Fortran / read-only, already of the internal shape) under generated "
     "option sets; caller arrays, earlier returned arrays and stored fields that are not the named target must be bitwise unchanged. "
     "Exploration over the registry and option space; entry points outside the registry are not covered.",
     "Trusted: the registry lists the public array-taking entry points; numpy tobytes comparison.",
@@ -66,7 +68,7 @@ entry(
     "Hypothesis property-based and history testing against freshly constructed generators (metamorphic) and twin runs with distinct seed objects",
     "Generated inputs (3 generators x 8 model classes x dim 1-3 x seeds up to 2^32 x evaluation variants: permutation, subset, batches, "
     "structured vs list, meshio points/centroids, store names) are compared point by point with fresh single-point evaluations; generated "
-    "histories of calls, in-place parameter changes/restorations, setter and update() calls are followed by a comparison with a freshly built "
+    "histories of calls, in-place parameter changes/restorations, moved request points (tiny moves, large-coordinate offsets), setter and update() calls are followed by a comparison with a freshly built "
     "SRF and by a consistency check of the generator's arrays; the same history with equal seeds as distinct objects must give identical "
     "output incl. nugget noise. Exploration of bounded histories.",
     "Trusted: a fresh SRF with copied model, same generator kwargs and seed defines the expected value; changes inside numpy.isclose's "
@@ -78,7 +80,7 @@ entry(
     "C08",
     "Hypothesis property-based testing against a pure-Python brute-force pair enumeration (same IEEE operation order as the kernel)",
     "Generated point clouds (dyadic lattices with exact ties on bin edges / band limits, float clouds, duplicates, lat-lon incl. poles and "
-    "wrap-arounds), 1-4 fields with NaN, bin edges, both estimators, 0-3 directions (separated / overlapping), tolerances, bandwidths and masked "
+    "wrap-arounds), 1-4 fields with missing values (as NaN, stacked masked array, list of masked arrays, no_data marker), bin edges, both estimators, 0-3 directions (separated / overlapping), tolerances, bandwidths and masked "
     "grids are fed to the compiled estimators directly and to vario_estimate / vario_estimate_axis; counts must equal the enumeration exactly, "
     "values to 1e-11. Float ties within 1e-12 of a threshold are discarded and counted.",
     "Trusted: libm sqrt/sin/cos/atan2/acos identical between CPython's math module and the kernel; the documented formulas as encoded in oracles/variogram.py.",
@@ -131,7 +133,9 @@ entry(
     "compared with krige_est + sqrt(krige_var/var)*raw(seed) where the kriging part comes from solving the kriging system directly and raw from an "
     "independent SRF; data honouring and the far-field limit are asserted. Generated call histories (new seeds, set_pos, set_condition with new values / "
     "positions, in-place model change + documented refresh, re-assignment of model/mean/trend/normalizer, in-place edits of the caller's position "
-    "array) must after every generation equal a freshly built Krige+CondSRF. Exploration of bounded histories.",
+    "array, results stored under other names, direct calls of the kriging object) must after every generation equal a freshly built Krige+CondSRF; with a "
+    "nugget the coefficients of the smooth field and of the nugget noise are solved per target over the seeds (a^2 var + b^2 nugget = kriging variance, a = b = 1 "
+    "in the far field). Exploration of bounded histories.",
     "Trusted: model.covariance (C03), oracles/geometry.py, numpy.linalg; nugget-free models for the formula; shifts inside numpy.allclose's window are "
     "a known finding (K8) probed on every run.",
     "DESIGN.md section 2, C07",
@@ -143,7 +147,8 @@ entry(
     "Generated kriging problems (6 variants incl. base Krige with unbiased x drift combinations, all 17 classes, dim 1-3 / lat-lon / space-time, "
     "anisotropy/rotation, NaN data, mean/trend/normalizer, exact, nugget, scalar / per-point measurement error, pinv/pinvh/inv, chunks, meshes, only_mean) "
     "are compared with estimate z'A^-1 b and variance sill - b'A^-1 b from an independently assembled system with independent geometry; get_mean vs the "
-    "generalised least squares mean; linearity, reproduction of constants and drift functions, invariance under chunk size / mesh type / permutations.",
+    "generalised least squares mean; linearity, reproduction of constants and drift functions, invariance under chunk size / mesh type (incl. structured meshes "
+    "evaluated chunk by chunk) / permutations; call histories on one object (in-place model changes + refresh, new values / positions, variogram fits).",
     "Trusted: model.covariance (C03), oracles/geometry.py, numpy.linalg; systems with cond(A) > 1e10 are discarded and counted.",
     "DESIGN.md section 2, C05",
 )
@@ -165,7 +170,7 @@ entry(
     "(C/Fortran/strided/read-only) and integer lattices with pairs exactly on bin edges, every kernel entry point must give bit-identical results for the "
     "installed artefact, a serial rebuild and an OpenMP rebuild with num_threads in {None,1,2,3,4,8,16} (repeated), agree within 4 ulp with a plain "
     "interpretation of its .pyx (harness/pyx2py.py) and within 8e-12 sum|terms| (+ phase conditioning) with numpy references of the defining sums; public "
-    "wrappers must not depend on config.NUM_THREADS and SRF output must equal the defining mode sum of the generator's own arrays.",
+    "wrappers must not depend on config.NUM_THREADS and SRF output must equal the defining mode sum of the generator's own arrays for amplitudes over 120 decades.",
     "Trusted: gcc/g++ -O2 reproduces the shipped arithmetic (no FMA contraction); libm shared by CPython math and the kernels; schedules are sampled by "
     "repetition, not enumerated (a hand-made race - barrier removed / accumulator shared in the generated C - did not manifest in ~3000 runs, so rare "
     "interleavings can be missed).",
@@ -212,7 +217,8 @@ entry(
     "allowance); non-growth of the error from N to 16N modes; black-box SRF ensembles (120-6000 seeds, <= 6 points / small grids, anisotropic rotated "
     "models with nugget) vs cov_spatial + nugget with independent geometry; Fourier generator with randomness removed (documented grid and weights vs the "
     "generator's table, exact ensemble covariance vs a seeded ensemble, convergence under refinement); vector-field component covariances vs the projected "
-    "spectrum. Evidence is statistical and proportional to the sample sizes stated in the evidence file.",
+    "spectrum; the inversion sampler's quantile function at every probability the uniform generator can return (k 2^-53, both tails) against closed-form "
+    "cdfs; a quarter of the sampled models reach their dimension by assignment. Evidence is statistical and proportional to the sample sizes stated in the evidence file.",
     "Trusted: model.correlation / spectral_density (C03/C04); the field value equals the defining mode sum (C15 wrappers sub-check); z thresholds and the MCMC "
     "bias allowance 0.25 sqrt(100/N) as declared; two known sampler findings (K1 numerical-Hankel spectra in dim >= 2, K24 heavy tails) are excluded from "
     "the main search and probed on every run.",
@@ -223,7 +229,7 @@ entry(
     "Hypothesis property-based testing: exact divergence through the kernel itself, Richardson finite differences through SRF, independent projector algebra, seeded moment z-tests",
     "For 16 classes in dim 2/3: SRF(generator='VectorField') output equals mean_u e1 + mean_u sqrt(var/N) x kernel on the generator's own arrays; the "
     "analytic divergence (mode sum with amplitudes (z2 k_i, -z1 k_i)) vanishes at 1e-12 sum|terms| + rounding floor; central differences with Richardson "
-    "extrapolation through SRF (points and structured stencils) give zero divergence at 1e-6 |grad u|; k.p(k) = 0 and own numpy mode sum; mean (u,0[,0]) and "
+    "extrapolation through SRF (points and structured stencils; also SRFs reused after an in-place change of the model's dim / len_scale) give zero divergence at 1e-6 |grad u|; k.p(k) = 0 and own numpy mode sum; mean (u,0[,0]) and "
     "component variances u^2 var (3/8,1/8) / (8/15,1/15,1/15) over 300-600 seeds at |z| <= 7 with confirmation.",
     "Trusted: derivation of the variance fractions (in the module), numpy; classes whose spectral law is not verified (K1) are used only in the deterministic sub-checks.",
     "DESIGN.md section 2, C16",
@@ -247,7 +253,8 @@ entry(
     "17 classes + 4 user subclasses x dim 1-3 (20% lat-lon) x parameters over their bounds x lags from 0 over denormals, 1e-12..1e-6 len, a log grid to 1e3 len "
     "and values within 4 ulp of every piecewise boundary: variogram/covariance/correlation/cor identities, *_nugget / *_axis / *_spatial / *_yadrenko variants "
     "(independent rotation and chord), evenness and input types at 1e-12 sill; documented closed forms at 1e-9 (+ conditioning of the TPL superposition and "
-    "near-integer exp_int orders); integral scale (get / prescribe scalar / prescribe list) and percentile scale (residual, positivity, first crossing).",
+    "near-integer exp_int orders); integral scale (get / prescribe scalar / prescribe list; a model built with integral_scale= keeps the requested var / nugget and "
+    "equals the model built with the resulting len_scale) and percentile scale (residual, positivity, first crossing).",
     "Trusted: mpmath special functions; documented formulas as transcribed in oracles/closed_forms.py; four low-severity accuracy findings are excluded and probed.",
     "DESIGN.md section 2, C03",
 )
